@@ -363,4 +363,26 @@ PROPS["C17"] = {
     "level_note": "_partial: the director's byte-for-byte request-target (URL.Opaque = RequestURI) and response relay are checked by oracles only.",
 }
 
+PROPS["C19"] = {
+    "drivers": [dict(MAIN, timeout=3000)],
+    "rule": "grammar-based mutation of whole raw requests (request target over every endpoint with 31 query variants incl. state/code/rd/allowed_* "
+            "values, ~70 Cookie header variants built from this proxy's own session, stale-session and CSRF cookies, 21 Authorization "
+            "variants incl. valid/mutated bearer tokens and basic credentials, 22 forwarding / client-IP / Accept / upgrade header sets, "
+            "methods, hosts, remote addresses, form bodies): one-dimension sweeps plus 2500 (40000 in thorough) random combinations for each "
+            "of 8 validated configurations (every injectable claim incl. created_at / expires_on as request and response headers, cookie, "
+            "bearer and basic sessions, both stores, csrf-per-request, encode-state, reverse-proxy with each of the 5 client-IP headers, "
+            "force-https, API routes, JSON errors, cookie names with regex metacharacters and of 252 bytes); p.ServeHTTP is called directly "
+            "under recover; non-trivial = every configuration's run",
+    "assumptions": ["the classification of each inventory entry (why it cannot panic while serving) is a reviewed annotation",
+                    "panics inside net/http, gorilla/mux, go-oidc or other libraries are only found by the request fuzzing"],
+    "trusted_base": ["translator go/xlate/sites.go and guards.go (inventory and guard shapes from the Go AST)"],
+    "level_text": "c19_sites_pinned (the inventory of slice / constant-index / unchecked-assertion / panic / MustCompile sites regenerated from the "
+                  "request-path packages equals the reviewed list) and c19_no_unguarded_site, plus guard theorems for every input over Go's "
+                  "partial operations with the guard operator and constant regenerated from the source: c19_allowed_email_domains, "
+                  "c19_decode_state, c19_validate_parts, c19_split_auth_header, c19_basic_credentials, c19_parse_jwt, c19_state_substring, "
+                  "c19_cfb_decrypt, c19_gcm_decrypt; request fuzzing over 8 configurations on every run searches for a concrete crashing input.",
+    "level_note": "_partial: there is no single serve-function model from which absence of panics follows; the theorems cover the listed guarded "
+                  "sites, the rest of the inventory is covered by its reviewed classification and the fuzzing.",
+}
+
 NOT_APPLICABLE = {}
